@@ -211,7 +211,7 @@ def feature_params(draw, kind, Dx, Dy, Dk, kappa=30.0):
 
 
 @st.composite
-def het_params(draw, kind, Dx, Dy, Da, Dk, wscale=1.0, kappa=30.0):
+def het_params(draw, kind, Dx, Dy, Da, Dk, wscale=1.0, kappa=30.0, big_offsets=False):
     """Heteroscedastic conditional: mean Mx+b, covariance AA' + A_k diag(link(Wx+w0)) A_k'."""
     G = draw(spd(1, Da, kappa=kappa, lam_lo=0.5, lam_hi=1.5))
     A = G[:, :Dy, :]  # full row rank, cond(AA') bounded
@@ -219,6 +219,10 @@ def het_params(draw, kind, Dx, Dy, Da, Dk, wscale=1.0, kappa=30.0):
     # offsets are non-zero (stated domain of C16/C17); scaling by wscale applies to the input weights only below
     W = W.copy()
     W[:, 0] = np.where(W[:, 0] >= 0, W[:, 0] + 0.05, W[:, 0] - 0.05)
+    # offset regime: now and then a unit is (numerically) switched off or strongly biased: |w0| ~ 30..45
+    if big_offsets and draw(st.sampled_from([False, False, False, False, True])):
+        k = draw(st.integers(0, Dk - 1))
+        W[k, 0] = draw(st.sampled_from([-1.0, -1.0, 1.0])) * draw(floats(30.0, 45.0))
     if kind in ("heaviside", "relu") and wscale > 0:
         # the step / rectified-linear classes need a non-zero weight vector (h must have positive variance)
         W = W.copy()
